@@ -670,7 +670,7 @@ def replay (evs : List Ev) : String := Id.run do
   return "ok"
 
 /-- monitor on the raw events: at CloseReturn every batch created has been completed (after exactly one Completion
-callback when any is configured), every partition writer's sender has exited, and nothing happens afterwards -/
+callback when any is configured), every partition writer's sender has exited, and nothing happens afterwards but refused calls and repeated Closes -/
 def holds (evs : List Ev) : Bool :=
   let z := evs.zipIdx
   match (z.find? fun x => x.1 == .closeReturn).map (·.2) with
@@ -684,7 +684,8 @@ def holds (evs : List Ev) : Bool :=
     batches.all (fun b => before.contains (.complete b) &&
       (!anyCompletion || (before.filter (· == .completion b)).length == 1)) &&
     queues.all (fun q => before.contains (.senderExit q)) &&
-    after.all (fun e => match e with | .enter false => true | .enter true => false | _ => false)
+    -- afterwards: refused calls, and further (no-op) Closes
+    after.all (fun e => match e with | .enter false => true | .closeBegin | .closeMarked | .closeReturn => true | _ => false)
 
 def run (trace : String) : String × Bool :=
   let toks := if trace == "-" then [] else (trace.splitOn ";").filter (· ≠ "")
